@@ -371,9 +371,9 @@ def c15(cx):
         return None if not prog else "progress lines printed for a run without pieces"
     if len(prog) != total:
         return "%d progress lines for %d pieces" % (len(prog), total)
-    last = max(prog, key=lambda p: p[0] + p[1] + p[2])
+    last = prog[-1]                     # the FINAL report is the last line printed
     if sum(last[:3]) != total or last[3] != total:
-        return "final report %r does not add up to the %d pieces of the distinct loaded torrents" % (last, total)
+        return "final report %r (the last progress line printed) does not add up to the %d pieces of the distinct loaded torrents" % (last, total)
     if sorted(sum(p[:3]) for p in prog) != list(range(1, total + 1)):
         return "progress lines do not account for the pieces one at a time: %r" % (prog,)
     outs = cx.ce["outcomes"]
